@@ -77,6 +77,20 @@ PRESERVE_TEMPLATES = [
     ('globals_and_locals', 'HOLEA = 1\ndef HOLEB(x):\n    HOLEC = x + HOLEA\n    return HOLEC\n'),
 ]
 
+# templates with literals in every position hoisting cares about (C06)
+HOIST_TEMPLATES = [
+    ('module_repeat', 'HOLEA = "some text here"\nHOLEB = "some text here"\nHOLEC = "some text here" + "some text here"\n'),
+    ('nested_def', 'def f(HOLEA):\n    HOLEB = "repeated literal"\n    def g():\n        return "repeated literal" + HOLEC + "repeated literal"\n    return g, "repeated literal"\n'),
+    ('doc_future', '"""module doc"""\nfrom __future__ import annotations\nHOLEA = "repeated literal", "repeated literal", "repeated literal", "repeated literal"\ndef f():\n    """repeated literal"""\n    return "repeated literal", HOLEB, HOLEC\n'),
+    ('slots_match_fstring', 'class K:\n    __slots__ = ("repeated_slot", "repeated_slot")\n    HOLEA = "repeated_slot", "repeated_slot", "repeated_slot"\n    def m(self, HOLEB):\n        match HOLEB:\n            case "repeated_slot":\n                return f"repeated_slot{HOLEC}repeated_slot"\n        return "repeated_slot"\n'),
+    ('none_true_bytes', 'def f(HOLEA=None, HOLEB=None):\n    if HOLEA is None and HOLEB is None:\n        return None, None, None, True, True, True, b"bytes literal", b"bytes literal", b"bytes literal"\n    return HOLEC\n'),
+    ('one_true_float', 'def f():\n    HOLEA = [True, True, True, True, True, 1, 1, 1, 1, 1, 1.0, 1.0, 1.0, 1.0]\n    HOLEB = [0, 0, 0, 0, 0, False, False, False, False, 0.0, 0.0, 0.0, 0.0]\n    return HOLEA, HOLEB, HOLEC\n'),
+    ('decorator_default_lambda', '@d("decorator text")\ndef f(HOLEA="decorator text"):\n    return [HOLEB + "decorator text" for HOLEB in HOLEC], (lambda: "decorator text")\n'),
+    ('shared_and_local', 'def f(HOLEA):\n    return "shared literal", "shared literal", "only in f!", "only in f!", "only in f!", HOLEA\ndef g(HOLEB):\n    return "shared literal", "shared literal", HOLEB, HOLEC\n'),
+    ('class_method_doc', 'class K:\n    """class doc text"""\n    def m(self, HOLEA):\n        """class doc text"""\n        return "class doc text", "class doc text", "class doc text", HOLEA, HOLEB, HOLEC\n'),
+    ('str_vs_bytes_same', 'def f(HOLEA):\n    return "same text", "same text", "same text", b"same text", b"same text", b"same text", HOLEA, HOLEB, HOLEC\n'),
+]
+
 _PARSED = {}
 
 
@@ -116,5 +130,5 @@ def source(k, A, B, C, lib=TEMPLATES):
     return s.replace(HOLES[0], A).replace(HOLES[1], B).replace(HOLES[2], C)
 
 
-for _lib in (TEMPLATES, TAINT_TEMPLATES, PRESERVE_TEMPLATES):
+for _lib in (TEMPLATES, TAINT_TEMPLATES, PRESERVE_TEMPLATES, HOIST_TEMPLATES):
     _PARSED[id(_lib)] = [ast.parse(t[1]) for t in _lib]
